@@ -9,7 +9,7 @@ VARIABLES proto, opts, sid
 vars == <<proto, opts, sid>>
 
 Tokens ==
-    {Tok("h", s, 0) : s \in {"h1", "10.0.0.2"}} \cup {Tok("b", s, 0) : s \in {"b1"}} \cup
+    {Tok("h", s, 0) : s \in {"h1", "10.0.0.2"}} \cup {Tok("b", s, 0) : s \in {"b1", "h1"}} \cup
     {Tok("p", "", n) : n \in {0, 80, -1}}       \cup {Tok("t", "", n) : n \in {0, 3000, 60000}} \cup
     {Tok("g", "", n) : n \in {0, 7}}            \cup {Tok("q", "", n) : n \in {0, -3}} \cup
     {Tok("w", "", n) : n \in {-1, 0, 55, 100, 101}} \cup {Tok("v", "", n) : n \in {0, 1, -1}} \cup
@@ -45,6 +45,7 @@ InvKeyDirectVsRegistry ==
               weight |-> NormWeight(r.w, r.v), wtype |-> r.v, auth |-> r.e, setid |-> sid]
     IN  KeyText(FromTars(F)) = KeyText(E) /\ Key(FromTars(F)) = Key(E)
 InvKeySound == Len(opts) > 0 => KeySound(E, WithSet(Parse(proto, SubSeq(opts, 1, Len(opts) - 1)), sid))
+InvBindApart == BindApart(proto, opts)
 \* appending "-l value" changes the folded record at letter l only
 StepLocal == [][\A l \in Letters : l # opts'[Len(opts')].o => Fold(opts')[l] = Fold(opts)[l]]_vars
 =============================================================================
